@@ -260,7 +260,8 @@ Proof.
   - cbn [nullb]. split.
     + intros H. split; [discriminate|]. intros o Hat.
       destruct (find (anchor_atb (x :: h) host w e) (seq 0 (S (length host)))) as [o'|] eqn:F; [discriminate|].
-      pose proof (anchor_at_bound _ _ _ _ _ ltac:(discriminate) Hat) as Hb.
+      assert (Hne : x :: h <> []) by discriminate.
+      pose proof (anchor_at_bound _ _ _ _ _ Hne Hat) as Hb.
       apply anchor_atb_spec in Hat; [|discriminate].
       pose proof (find_none _ _ F o) as G. rewrite G in Hat; [discriminate|].
       apply in_seq. cbn [length] in Hb. lia.
@@ -310,7 +311,7 @@ Proof.
     + destruct e eqn:He.
       * destruct s; [intros _; apply m_nil_end|discriminate].
       * intros _. apply m_nil_any. reflexivity.
-    + intros H. inversion H; subst; reflexivity.
+    + intros H. inversion H; subst; try reflexivity. destruct e; reflexivity.
   - destruct t as [b| |].
     + rewrite mb_lit. destruct s as [|x s].
       * split; [discriminate|]. intros H. inversion H.
